@@ -360,7 +360,7 @@ class LemmaDef:
         self.order = 0
 
 
-FUNC_CLAUSES = ('requires', 'ensures', 'assigns', 'nopanic', 'maypanic', 'inline', 'trusted', 'pure', 'decreases',
+FUNC_CLAUSES = ('requires', 'ensures', 'assigns', 'nopanic', 'maypanic', 'devirt', 'inline', 'trusted', 'pure', 'decreases',
                 'loop', 'invariant', 'use', 'tags', 'modifies', 'opaque', 'induction', 'trigger', 'terminates', 'callsite', 'recgroup')
 
 
@@ -413,6 +413,7 @@ class ContractSet:
         return resolve_type(prog, pkg, tast)
 
     def parse_directive(self, prog, pkg, g):
+        self._prog, self._pkg = prog, pkg
         head = g[0]
         word = head.split(None, 1)[0]
         if word in ('spec', 'rec', 'pred'):
@@ -527,6 +528,15 @@ class ContractSet:
             elif kw == 'terminates':
                 # `terminates assumed <reason>`: recursion without a checkable measure; recorded as an assumption
                 target.assume_terminates = rest
+            elif kw == 'devirt':
+                # devirt I = *T : calls through interface I inside this function go to T's methods; that the
+                # receiver holds a T is an obligation at each such call
+                m2 = re.match(r'(\S+)\s*=\s*(\S+)$', rest)
+                if not m2:
+                    raise SpecError('bad devirt clause %r' % rest)
+                if getattr(target, 'devirt', None) is None:
+                    target.devirt = {}
+                target.devirt[resolve_type(self._prog, self._pkg, Parser(m2.group(1)).parse_type())] = resolve_type(self._prog, self._pkg, Parser(m2.group(2)).parse_type())
             elif kw == 'maypanic':
                 # the function may panic instead of returning (its callers recover): run-time panics inside it end
                 # the path instead of being proof obligations
